@@ -15,7 +15,6 @@ Theorem C05_call_roundtrip :
   forall tag content (vs : variants) meth (ow mo up : bool),
   Fits (SAdj tag content vs) meth ->
   is_flag tag = false -> is_flag content = false ->
-  needs_escape tag = false -> needs_escape content = false ->
   exists v, enc_call (SAdj tag content vs) (mk_call meth ow mo up) = Some v /\
             dec_call (SAdj tag content vs) v = Some (mk_call meth ow mo up).
 Proof. exact call_roundtrip. Qed.
@@ -168,7 +167,7 @@ Print Assumptions C05_no_parameters_derived_errors.
 (* ... the standard method org.varlink.service.GetInfo in a call envelope *)
 Theorem C05_no_parameters_getinfo :
   forall ms (ow mo up : bool),
-  NoDup (keys ms) -> existsb (fun m => needs_escape (fst m)) ms = false ->
+  NoDup (keys ms) ->
   lookup "method" ms = Some (JStr "org.varlink.service.GetInfo") ->
   no_params (lookup "parameters" ms) ->
   spec_flag "oneway" ms = Some ow -> spec_flag "more" ms = Some mo -> spec_flag "upgrade" ms = Some up ->
